@@ -38,9 +38,8 @@ LEVEL_NOTE = ('trusted: Coq kernel + vm_compute; asyncio primitives (Queue, wait
     'done-callbacks, call_later, task wake-up order) are modelled in Batcher.v and validated only by the '
     'correspondence runs; harness/vloop.py, harness/batcher_drv.py, coq/theories/Case_Batcher.v (agree + monitors).  '
     'The state-free conjuncts of the monitors (ok_basic) are proved complete and sound; the full monitors ok_C04 / '
-    'ok_C10 / ok_C11 are proved complete on Chain-free event lists (monitor_complete_nochain) and partially sound '
-    'model-free (monitor_sound_*); for scripts with Chain events the tie of the state-dependent conjuncts is agree '
-    '(model trace = observed trace) on every case')
+    'ok_C10 / ok_C11 are proved complete on ALL event lists, Chain events included (monitor_complete; ok_C04 / '
+    'ok_C10 for batch_timeout > 0), and partially sound model-free (monitor_sound_*)')
 TECHNIQUE = D.TECHNIQUE
 
 run_impl = D.run_impl
@@ -168,6 +167,6 @@ LEVEL_TEXT = ('On the macro-step model of the CURRENT AsyncBackgroundBatcher (ca
     "busy (then it is queued for the next free slot).  The statement 'the run without the Cancel events gives the "
     "same answers' is NOT claimed (a cancelled task stops making its later calls).  Tied to /repo by differential "
     'correspondence under the virtual-time loop with scripted cancellations; the monitor (ok_C04 and ok_C11) judges '
-    'the observed trace independently of the model. monitor_complete_nochain: the verdict of this check (ok_C04 && '
-    'ok_C11) accepts every model trace, with arbitrary cancellations, for batch_timeout > 0 and event lists without '
-    'Chain events.')
+    'the observed trace independently of the model. monitor_complete: the verdict of this check (ok_C04 && '
+    'ok_C11) accepts every model trace, with arbitrary cancellations, for batch_timeout > 0 and ALL event lists, '
+    'Chain events included (Case_Batcher_Full.v; monitor_complete_nochain is the earlier Chain-free version).')
